@@ -92,7 +92,7 @@ class World(object):
 
         def cb(sender, *args, **kwargs):
             log.append((lab, ev, sender, args, dict(kwargs)))
-            return 'ret-%s-%s' % (lab, ev)
+            return None if lab == 'c1' else 'ret-%s-%s' % (lab, ev)     # a callback may return None
         cb.__name__ = 'on_' + ev
         cb.__qualname__ = 'on_' + ev
         return cb
@@ -169,7 +169,7 @@ class World(object):
                             {'args': c[3], 'kwargs': c[4]})
                 if c[2] is not self.senders[sname]:
                     return ('sender-object', sname, repr(c[2]))
-            results = ['ret-%s-%s' % (l, e_) for (l, e_, s_) in calls]
+            results = [None if l == 'c1' else 'ret-%s-%s' % (l, e_) for (l, e_, s_) in calls]
             if single:
                 if calls and ret != results[0]:
                     return ('single-return', results[0], repr(ret))
